@@ -75,7 +75,50 @@ def mc(ck):
 def run(ck):
     hb = ck.build("h-node")
     mc(ck)
+    guided_validate(ck, hb)
     record_validate(ck, hb)
+
+
+def guided_validate(ck, hb):
+    """spec -> impl: environment schedules generated by TLC from Syncer.tla (simulation) are performed on the
+    real Syncer; the recorded run is judged like the random ones."""
+    prune, foreign = ("FALSE", "TRUE") if ck.prop == "C38" else ("TRUE", "FALSE")
+    consts = {"N": 10, "Batch": 2, "WSamp": 5}
+    gcfg = ck.cfg_with("Gen_Syncer.cfg", {"EnablePrune": prune, "EnableForeign": foreign})
+    walks = 60 if ck.quick else 600
+    beh, _ = ck.tlc_gen("Gen_Syncer", gcfg, "behaviours.ndjson", simulate=(walks, 40), dedupe=True,
+                        count_stats=False, timeout=1500)
+    trace = f"{ck.work}/trace_guided.ndjson"
+    s = ck.harness(hb, ["replay", "syncer", beh, "--out", trace, "--n", 10, "--batch", 2, "--wsamp", 5], "replay_guided",
+                   timeout=3000)
+    p = s["props"][ck.prop]
+    ck.cov["evaluations"] += p["evaluations"]
+    ck.cov["distinct_nontrivial"] += p["distinct_nontrivial"]
+    ck.cov["samples"] += p["samples"][:1]
+    for line in open(trace):
+        if '"name":"fatal"' in line:
+            ck.violation({"kind": "fatal-syncer-error", "dir": "spec->impl"}, line[:300], json.loads(line))
+    strict_cfg = ck.cfg_with("Trace_Syncer.cfg", dict(consts, Strict="TRUE"), name="Trace_Syncer_sg.cfg")
+    loose_cfg = ck.cfg_with("Trace_Syncer.cfg", dict(consts, Strict="FALSE"), name="Trace_Syncer_lg.cfg")
+
+    def on_reject(rej, run_lines, idx):
+        p2 = f"{ck.work}/loose_g_{abs(hash(run_lines[0] + run_lines[-1])) % 10**8}.ndjson"
+        open(p2, "w").write("\n".join(run_lines) + "\n")
+        ok, rej2 = ck.tlc_trace("Trace_Syncer", loose_cfg, p2, tag="loose_guided")
+        ev = rej["event"] if isinstance(rej["event"], dict) else {}
+        if ok:
+            ck.cov["drift"] += 1
+            vf.log(f"DRIFT property={ck.prop} (guided) event {idx} ({ev.get('name')}): {json.dumps(ev)[:200]}")
+            return
+        inv = rej2.get("invariant")
+        owner = {"NoRequestBelowOldHeader": "C25", "StoreOnHonestChain": "C38", "FetchAllowed": "C24"}.get(inv, ck.prop)
+        if owner == ck.prop or (owner == "C24" and ck.prop == "C25"):
+            ck.violation({"kind": "property", "invariant": inv, "event": "fetch", "dir": "spec->impl"},
+                         f"TLC-generated schedule: property {inv} fails at event {rej2['at']}: "
+                         f"{json.dumps(rej2.get('event') or ev)[:300]}",
+                         {"trace": run_lines[:max(rej2['at'], idx)], "reject": rej2, "consts": consts})
+
+    ck.validate_trace_runs("Trace_Syncer", strict_cfg, trace, on_reject)
 
 
 def record_validate(ck, hb, combos=None):
